@@ -6,6 +6,7 @@ pub mod c12;
 pub mod c13;
 pub mod c16;
 pub mod c17;
+pub mod c18;
 
 use crate::runner::{Ctx, ReplayFile};
 
@@ -24,6 +25,7 @@ pub fn lookup(id: &str) -> Option<(&'static str, RunFn, ReplayFn, &'static str, 
         "C13" => ("C13", c13::run, c13::replay, "exploration", c13::worker),
         "C16" => ("C16", c16::run, c16::replay, "exploration", c16::worker),
         "C17" => ("C17", c17::run, c17::replay, "exploration", c17::worker),
+        "C18" => ("C18", c18::run, c18::replay, "exploration", c18::worker),
         _ => return None,
     })
 }
